@@ -106,7 +106,8 @@ class RuleOrdering:
         processed = set()
         res = {}
         res["S"] = 0
-        for symbol in arborescence["S"]:
+        start_neighbours = arborescence["S"] if "S" in arborescence else []
+        for symbol in start_neighbours:
             if symbol not in processed:
                 res[symbol] = 1
                 processed.add(symbol)
